@@ -40,7 +40,7 @@ def run_step(fn, qual, state, feed):
     """one iteration of fn's (first) loop from `state` with the remaining input `feed`; returns dict(yields, outcome, locals, consumed)"""
     ctx = Ctx()
     src = Counting(feed)
-    I = Interp(ctx, loop_specs={(qual, 0): OneStepLoop(state)})
+    I = Interp(ctx, loop_specs={(qual, 0): OneStepLoop(state, kind="while")})
     g = run_sync(I.call(fn, (src,), {}))
     ys = []
     outcome = None
